@@ -250,6 +250,7 @@ func solve1(o *Obligation, cfg *SolverCfg, idx int) {
 	base := filepath.Join(cfg.WorkDir, fmt.Sprintf("o%05d", idx))
 	f1 := base + ".smt2"
 	f2 := base + ".cvc5.smt2"
+	script = "; " + o.Name + "\n" + script
 	z3script := script
 	if o.logic != "" {
 		z3script = "(set-logic " + o.logic + ")\n" + script
